@@ -58,7 +58,7 @@ def check(ctx, floors=True, only_literals=False):
         lits = list(T.flat_lits(items))
         for w in where:
             if w in lits:
-                where[w].append((cshort(b["path"]), T.render(items), node["sp"]))
+                where[w].append((cshort(b["path"]), T.render_pos(items), node["sp"]))
     std_fns = sorted({f for f, _t, _s in where["std"]})
     ctx.expect(std_fns == ["scale_typegen::to_tokens"] and all(t == ":: std" for _f, t, _s in where["std"]) and len(where["std"]) == 1, "C09.1", "literal/std",
                where["std"][0][2] if where["std"] else "", "the identifier `std` is emitted by exactly one template, `::std` in AllocCratePath::to_tokens",
@@ -87,7 +87,7 @@ def check(ctx, floors=True, only_literals=False):
                "string literals with std/alloc paths: %s" % strs)
     if only_literals:
         for b, node, items, kind in tpls:
-            text = T.render(items)
+            text = T.render_pos(items)
             m = re.match(r"^:: (\w+) ::", text)
             if m and m.group(1) not in ("core",) and not text == ":: std":
                 ctx.bad("C09.3", "hard-coded-root/%s/%s" % (cshort(b["path"]), text), node["sp"], "template hard-codes the crate root `::%s`" % m.group(1))
@@ -106,7 +106,7 @@ def check(ctx, floors=True, only_literals=False):
     # C09.3 alloc-rooted templates
     n_alloc = 0
     for b, node, items, kind in tpls:
-        text = T.render(items)
+        text = T.render_pos(items)
         if any(t in text for t in ALLOC_TAILS) or re.search(r":: (vec|string|boxed|borrow|collections) ::", text):
             n_alloc += 1
             first = items[0] if items else None
@@ -116,7 +116,7 @@ def check(ctx, floors=True, only_literals=False):
     ctx.count("alloc-rooted templates", n_alloc, 9)
     # literal root check: no template starts with a literal `:: core ::`-less absolute root other than core
     for b, node, items, kind in tpls:
-        text = T.render(items)
+        text = T.render_pos(items)
         m = re.match(r"^:: (\w+) ::", text)
         if m and m.group(1) not in ("core",) and not text == ":: std":
             ctx.bad("C09.3", "hard-coded-root/%s/%s" % (cshort(b["path"]), text), node["sp"], "template hard-codes the crate root `::%s`" % m.group(1))
@@ -162,11 +162,11 @@ def check(ctx, floors=True, only_literals=False):
     with ctx.only(lambda k: k.endswith("/docs")):
         G.enum_struct_ir(ctx, "C09.5")
     # C09.7 codec literal
-    got = sorted((f, t) for f, t, _s in where["codec"])
-    exp = sorted([("CompositeFieldIR::compact_attr", "# [ codec ( compact ) ]"), ("scale_typegen::to_tokens", "# [ codec ( index = #index ) ]"),
-                  ("CompositeIR::struct_field_tokens", "# [ codec ( skip ) ]"), ("CompositeIR::struct_field_tokens", "# [ codec ( skip ) ]")])
+    got = sorted({t for _f, t, _s in where["codec"]})
+    exp = sorted(["# [ codec ( compact ) ]", "# [ codec ( index = #0 ) ]", "# [ codec ( skip ) ]"])
     ctx.expect(got == exp, "C09.7", "literal/codec", where["codec"][0][2] if where["codec"] else "",
-               "`codec` is emitted by exactly the compact / index / skip(x2) attribute templates", "`codec` appears in: %s" % got)
+               "`codec` is emitted by exactly the compact / index / skip attribute templates (where each is used: item and field template rules)",
+               "`codec` appears in: %s" % sorted((f, t) for f, t, _s in where["codec"]))
     with ctx.only(lambda k: k in ("item/enum", "fields/struct", "fields/enum", "fields/compact-attr")):
         G.item_templates(ctx, "C09.7")
         G.field_templates(ctx, "C09.7")
